@@ -171,7 +171,18 @@ def run_case(spec):
                 ref, _ = _one_run(spec, 'sampler_pool', scratch, budget=budget)
                 ref_name = 'sampler_pool'
                 obs['runs'] += 1
-            dig, info = _one_run(spec, v, scratch, budget=budget)
+            try:
+                dig, info = _one_run(spec, v, scratch, budget=budget)
+            except Exception as e:
+                if not env.from_code_under_test(e) or isinstance(e, np.linalg.LinAlgError):
+                    raise
+                # the base run completed; a variant that must be invisible made the code under test raise
+                obs['runs'] += 1
+                obs['pairs_compared'] += 1
+                viols.append(dict(key='determinism.%s-raises' % v.rstrip('0123456789'),
+                                  what='variant %s raised %s although the base run completed'
+                                  % (v, drive.describe_exc(e)), case=samplercase.case_key(spec)))
+                continue
             obs['runs'] += 1
             obs['pairs_compared'] += 1
             counted = True
